@@ -32,7 +32,7 @@ m = {
     "engines": [{"name": "govc", "path": "/verif/govc", "serves_properties": [c['property_id'] for c in checks],
                  "kind_free_text": "deductive: VC generator over go/ssa (naive form) of the real code + contracts in //@ comments; obligations discharged by z3 5.1 / z3 4.8.12 / cvc5 1.0.3; counterexamples replayed on the real code with go test -overlay drivers"}],
     "checks": checks,
-    "notes": "exit 0 = every obligation tagged with the property discharged (or listed in known_findings.json); exit 1 + VIOLATION line otherwise; see DESIGN.md",
+    "notes": "exit 0 = every obligation of the property discharged (or listed in known_findings.json) and every bounded stand-in ran to completion without a violation; exit 1 + VIOLATION line otherwise. A check covers the functions tagged with the property and every verified function they reach through calls (DESIGN.md 0.6, 'property closure'); the evidence lists both sets. See DESIGN.md",
     "not_applicable": na,
 }
 json.dump(m, open(os.path.join(V, 'MANIFEST.json'), 'w'), indent=1)
